@@ -89,6 +89,7 @@ def run(ck, tier):
         vlib.harness(["morass", "faults", "-n", n, "-seed", ck.seed, "-out", fr])
         tr2 = os.path.join(work, "random.ndjson")
         vlib.harness(["morass", "random", "-n", 1500 if thorough else 250, "-big", "-seed", ck.seed + 1000, "-out", tr2])
+        vlib.take_stall(tr2)  # a stall of a fault-free history is C11's to report
         allp = os.path.join(work, "all.ndjson")
         with open(allp, "w") as f:
             f.write(open(fr).read())
